@@ -7,6 +7,7 @@ package chainsim
 
 import (
 	"bytes"
+	"encoding/binary"
 	"fmt"
 	"os"
 	"path/filepath"
@@ -147,6 +148,20 @@ func (r *run) crashImages(root, template string, log []simos.Effect, seed uint64
 			return
 		}
 	}
+	// prefix truncations of the newest block DATA file (the index keeps the records of the blocks that lost
+	// their bytes): a few bytes, half a block, one block and a bit
+	dcuts := []int{1 + rng.Intn(40), 200 + rng.Intn(600), 1500 + rng.Intn(9000)}
+	if want >= 0 {
+		dcuts = dcuts[rng.Intn(3):][:1]
+	}
+	for _, c := range dcuts {
+		r.dataCut = c
+		ok := r.recoverImage(root, template, log, len(log), -1, final)
+		r.dataCut = 0
+		if !ok {
+			return
+		}
+	}
 }
 
 // truncIdx >= 0: additionally truncate blockchain.new of the image to that many bytes.
@@ -171,6 +186,22 @@ func (r *run) recoverImage(root, template string, log []simos.Effect, k int, tru
 		if truncIdx%136 != 0 {
 			out.Probe("truncation_inside_a_record", 1)
 		}
+	} else if r.dataCut > 0 {
+		newest := ""
+		if ents, err := os.ReadDir(img); err == nil {
+			for _, e := range ents {
+				if nm := e.Name(); strings.HasPrefix(nm, "bl") && strings.HasSuffix(nm, ".dat") && nm > newest {
+					newest = nm
+				}
+			}
+		}
+		st, err := os.Stat(filepath.Join(img, newest))
+		if newest == "" || err != nil || st.Size() <= int64(r.dataCut) {
+			return true
+		}
+		os.Truncate(filepath.Join(img, newest), st.Size()-int64(r.dataCut))
+		out.Fault("block_data_prefix_truncation", 1)
+		truncNote = fmt.Sprintf("block data file %s truncated by %d bytes to %d (the index still lists the blocks that lost bytes); ", newest, r.dataCut, st.Size()-int64(r.dataCut))
 	} else {
 		out.Fault("process_death_at_fs_effect", 1)
 	}
@@ -361,10 +392,12 @@ func (r *run) recoverImage(root, template string, log []simos.Effect, k int, tru
 	phase := "recovery"
 	if truncIdx >= 0 {
 		phase = "recovery-after-truncation"
+	} else if r.dataCut > 0 {
+		phase = "recovery-after-data-truncation"
 	}
 	if !out.Absorb(r.prop, phase, &res) {
 		if n := len(out.Violations); n > 0 {
-			if truncIdx >= 0 && snapshotBeyondIndex(img) {
+			if (truncIdx >= 0 || r.dataCut > 0) && snapshotBeyondIndex(img) {
 				out.Violations[n-1].Class = "truncation.snapshot-block-not-in-index"
 			}
 			if staleUndo != "" {
@@ -400,6 +433,13 @@ func snapshotBeyondIndex(img string) bool {
 	}
 	idx, _ := os.ReadFile(filepath.Join(img, "blockchain.new"))
 	for off := 0; off+136 <= len(idx); off += 136 {
+		// a record whose data lies beyond the end of its data file ends the usable index (as a short record does)
+		rec := idx[off : off+136]
+		fidx := binary.LittleEndian.Uint32(rec[28:32])
+		fpos, blen := binary.LittleEndian.Uint64(rec[40:48]), binary.LittleEndian.Uint32(rec[48:52])
+		if st, err := os.Stat(filepath.Join(img, fmt.Sprintf("bl%08d.dat", fidx))); err == nil && int64(fpos)+int64(blen) > st.Size() {
+			return true
+		}
 		h := ledger.Sha256d(idx[off+56 : off+136])
 		if string(h[:]) == string(snap[8:40]) {
 			return false
